@@ -503,7 +503,7 @@ func c12Systematic(tier string) []*Case {
 	var out []*Case
 	for seedv := 0; seedv < 60; seedv++ {
 		src := &lcgSrc{x: uint64(seedv)*7919 + 17}
-		cs := c12Case(src, "quick", 4)
+		cs := generated(src, func(s Src) *Case { return c12Case(s, "quick", 4) })
 		cs.Notes = []string{"sys"}
 		out = append(out, cs)
 	}
@@ -513,6 +513,7 @@ func c12Systematic(tier string) []*Case {
 func init() {
 	register(&Property{
 		ID:          "C12",
+		PrunableRuns: true,
 		Level:       "exploration",
 		Systematic:  c12Systematic,
 		Random:      c12Random,
